@@ -3,6 +3,21 @@
 
 static const uint8_t MAGIC[8] = {0xC3, 0xA5, 0xC3, 0xA5, 0xC3, 0xA5, 0xC3, 0xA5};
 
+std::string c11_judge(const bytes &f, const bytes &key, int T, const DV &r)
+{
+  bool auth = ref_authentic(f, key);
+  long body = (long)f.size() - 48 - 20L * T;
+  if (r.st != CH_OK)
+    return "verify/decrypt did not terminate normally: " + r.detail;
+  if ((r.vret || r.dret) && !auth)
+    return std::string(r.vret ? "verification" : "decryption") + " reported success although the file is not authentic for this key";
+  if (!r.dret && (r.d_writes > 0 || !r.dout.empty()))
+    return "a failing decryption wrote " + std::to_string(r.d_written_bytes) + " bytes to its output";
+  if (r.dret && (long)r.d_written_bytes > std::max(0L, body))
+    return "decryption wrote " + std::to_string(r.d_written_bytes) + " bytes, the ciphertext body holds only " + std::to_string(std::max(0L, body));
+  return "";
+}
+
 static Verdict run_c11(const Case &c)
 {
   Verdict v;
@@ -90,19 +105,9 @@ static Verdict run_c11(const Case &c)
       passing_magic++;
       v.more_distinct.push_back(fnv64(f.data(), f.size(), fnv64(hex(key))));
     }
-    std::string m;
-    bool auth = ref_authentic(f, key);
-    long body = (long)f.size() - 48 - 20L * T;
     if (r.st == CH_TIMEOUT)
       continue;
-    if (r.st != CH_OK)
-      m = "verify/decrypt did not terminate normally: " + r.detail;
-    else if ((r.vret || r.dret) && !auth)
-      m = std::string(r.vret ? "verification" : "decryption") + " reported success although the file is not authentic for this key";
-    else if (!r.dret && (r.d_writes > 0 || !r.dout.empty()))
-      m = "a failing decryption wrote " + std::to_string(r.d_written_bytes) + " bytes to its output";
-    else if (r.dret && (long)r.d_written_bytes > std::max(0L, body))
-      m = "decryption wrote " + std::to_string(r.d_written_bytes) + " bytes, the ciphertext body holds only " + std::to_string(std::max(0L, body));
+    std::string m = c11_judge(f, key, T, r);
     if (r.st == CH_OK)
     {
       if (r.vret || r.dret)
@@ -222,6 +227,33 @@ static void fixed_c11(Ctx &ctx)
 {
   const Prop *p = find_prop("C11");
   uint64_t i = 0;
+  if (ctx.mode == "corpus")
+  {
+    // seed corpus of the libFuzzer target: [T-1][key/chunk selector] + a valid file, every (cmode,hmode), T 1..4
+    if (ctx.shard != 0)
+      return;
+    int n = 0;
+    for (int cm = 0; cm < 5; cm++)
+      for (int hm = 0; hm < 3; hm++)
+        for (int T = 1; T <= 4; T++)
+        {
+          ref::FileParams fp;
+          fp.key = bytes(FUZZ_KEYA, FUZZ_KEYA + 16);
+          fp.seed = bytes{'f', 'z'};
+          fp.cmode = cm;
+          fp.hmode = hm;
+          fp.T = T;
+          fp.chunk = 32;
+          bytes P = expand(cm * 100 + hm * 10 + T, (size_t)(5 + 23 * T + cm), 0);
+          bytes f = ref::encrypt_file(P, fp);
+          std::string data;
+          data += (char)(T - 1);
+          data += (char)0;
+          data.append(f.begin(), f.end());
+          write_file(ctx.outdir + "/seed" + std::to_string(n++), data);
+        }
+    return;
+  }
   // tiny inputs: every length 0..12 of zero bytes / magic prefix; header-only files
   for (int len = 0; len <= 80; len++)
     for (int magic : {0, 1, 2})
